@@ -30,6 +30,7 @@ def dtapeV : FVal → Nat → List Tok
       [.endTok base]
 def dtapeFirst : FFirst → Nat → List Tok
   | .kv k _ o v, base => [(k.tok []).erase] ++ o.toks ++ dtapeV v (base + 1 + o.toks.length)
+  | .flds f, base => dtapeF f base
 def dtapeF : FFields → Nat → List Tok
   | .nil, _ => []
   | .cons _ k _ o v rest, base =>
@@ -83,6 +84,7 @@ theorem ftapeFirst_erase : ∀ (f : FFirst) (b : Nat) (a : Bytes), (ftapeFirst f
   | .kv k g1 o v, b, a => by
     simp only [ftapeFirst, dtapeFirst, List.map_append, List.map_cons, List.map_nil, Scal.tok_erase k,
       Op.toks_erase, ftapeV_erase v]
+  | .flds f, b, a => by simp only [ftapeFirst, dtapeFirst, ftapeF_erase f]
 theorem ftapeF_erase : ∀ (fs : FFields) (b : Nat) (a : Bytes), (ftapeF fs b a).map Tok.erase = dtapeF fs b
   | .nil, _, _ => rfl
   | .cons _ k g1 o v rest, b, a => by
@@ -134,6 +136,7 @@ def stripV : FVal → FVal
   | .mixed _ _ first rest _ m0 items _ => .mixed [] [] (stripFirst first) (stripF rest) [] m0 (stripI items) []
 def stripFirst : FFirst → FFirst
   | .kv k _ o v => .kv k [] o (stripV v)
+  | .flds f => .flds (stripF f)
 def stripF : FFields → FFields
   | .nil => .nil
   | .cons _ k _ o v rest => .cons [] k [] o (stripV v) (stripF rest)
@@ -165,6 +168,7 @@ theorem fcnt_stripV : ∀ v : FVal, fcntV (stripV v) = fcntV v
     simp only [stripV, fcntV, fcnt_stripFirst first, fcnt_stripF rest, fcnt_stripI items]
 theorem fcnt_stripFirst : ∀ f : FFirst, fcntFirst (stripFirst f) = fcntFirst f
   | .kv _ _ _ v => by simp only [stripFirst, fcntFirst, fcnt_stripV v]
+  | .flds f => by simp only [stripFirst, fcntFirst, fcnt_stripF f]
 theorem fcnt_stripF : ∀ fs : FFields, fcntF (stripF fs) = fcntF fs
   | .nil => rfl
   | .cons _ _ _ _ v rest => by simp only [stripF, fcntF, fcnt_stripV v, fcnt_stripF rest]
@@ -200,6 +204,7 @@ theorem dtape_stripV : ∀ (v : FVal) (b : Nat), dtapeV (stripV v) b = dtapeV v 
       dtape_stripF rest, dtape_stripI items]
 theorem dtape_stripFirst : ∀ (f : FFirst) (b : Nat), dtapeFirst (stripFirst f) b = dtapeFirst f b
   | .kv _ _ _ v, b => by simp only [stripFirst, dtapeFirst, dtape_stripV v]
+  | .flds f, b => by simp only [stripFirst, dtapeFirst, dtape_stripF f]
 theorem dtape_stripF : ∀ (fs : FFields) (b : Nat), dtapeF (stripF fs) b = dtapeF fs b
   | .nil, _ => rfl
   | .cons _ _ _ _ v rest, b => by simp only [stripF, dtapeF, fcnt_stripV, dtape_stripV v, dtape_stripF rest]
